@@ -684,6 +684,16 @@ func (t *c20Tr) seq1(l []ast.Stmt, m c20Mode, ind string) (string, error) {
 		}
 		lhs, rhs := x.Lhs[0], x.Rhs[0]
 		lt := c20Squash(types.ExprString(lhs))
+		// own := *branch; branch = &own : the graph keeps its own copy of the branch object
+		if x.Tok == token.DEFINE && lt == "own" && c20Squash(types.ExprString(rhs)) == "*branch" {
+			t.note("own := *branch; branch = &own: from here on `branch` is the graph's own copy of the caller's value (the caller's is not written any more)")
+			t.env["#own"] = "copy"
+			return rest()
+		}
+		if x.Tok == token.ASSIGN && lt == "branch" && c20Squash(types.ExprString(rhs)) == "&own" && t.env["#own"] == "copy" {
+			t.env["#own"] = "installed"
+			return rest()
+		}
 		// result := checkAssignable(…)
 		if x.Tok == token.DEFINE {
 			if call, ok := rhs.(*ast.CallExpr); ok && types.ExprString(call.Fun) == "checkAssignable" && lt == "result" {
